@@ -123,6 +123,10 @@ def stages(tier, seed, witness_search=False):
             for ex in [1, 63, 65]:
                 zs.append(Script([f"D zeroscan xs {ln} {ex} {mode}"], tags=("zeroize-reader-seek-" + mode,)))
                 zs.append(Script([f"D zeroscan xb {ln} {ex} {mode}"], tags=("zeroize-reader-boundary-" + mode,)))
+    # unusual but legal key values (all zero, all ones, one bit): a wipe that keys a decision on the key's value hides here
+    for ln in [0, 1, 64, 1000, 1024, 1025, 5000, 5352, 70000]:
+        zs.append(Script([f"D zeroscan h {ln} 0 keyedz"], tags=("zeroize-hasher-special-keys",)))
+        zs.append(Script([f"D zeroscan hash {ln} 0 keyedz"], tags=("zeroize-hash-special-keys",)))
     return [PairStage("debug", scripts), LineStage("zeroize-scan", zs, oracle=zero_oracle, max_minimise=2)]
 
 
